@@ -197,6 +197,63 @@ SEQ(updown)  {
 	d.out(scl::counterUpDown(inc[0], dec[0], rs[0], BitWidth{ p[0] }, (size_t)p[1]), "value");
 }
 
+// Counter usage variants.
+// cntv <ctor> <endOrWidth> <resetValue> <bind> <scope> <ldkind> : inc,dec,en,load,loadValue[,end]
+//   ctor   0 Counter(size_t end)   1 Counter(BitWidth)   2 Counter(UInt end) (end = last operand of a cycle)
+//   bind   bit0: inc() is called somewhere, bit1: dec() is called somewhere (0 = free running)
+//   scope  0 IF(inc) c.inc(); IF(dec) c.dec();          1 unconditional calls
+//          2 IF(en) { IF(inc) c.inc(); IF(dec) c.dec(); }   3 IF(en) { IF(inc) c.inc(); } ELSE { IF(dec) c.dec(); }
+//          4 IF(en) { c.inc(); c.dec(); }                    5 two call sites each: IF(inc) c.inc(); IF(en) c.inc(); ...
+//   ldkind 0 none   1 IF(load) c.load(loadValue)   2 IF(load) c.reset()   3 IF(en) IF(load) c.load(loadValue)
+SEQ(cntv) {
+	size_t ctor = p[0], E = p[1], rv = p[2], bind = p[3], scope = p[4], ldk = p[5];
+	const bool bi = bind & 1, bd = bind & 2;
+	std::optional<InputPins> pe;
+	std::unique_ptr<scl::Counter> cp;
+	if (ctor == 0) cp = std::make_unique<scl::Counter>((size_t)E, (size_t)rv);
+	else if (ctor == 1) cp = std::make_unique<scl::Counter>(BitWidth{ E }, (size_t)rv);
+	else { pe = pinIn(BitWidth{ E }).setName("end"); cp = std::make_unique<scl::Counter>((UInt)*pe, (size_t)rv); }
+	scl::Counter &c = *cp;
+	const size_t w = c.value().size();
+	UInt inc = d.in(1, "inc"); UInt dec = d.in(1, "dec"); UInt en = d.in(1, "en"); UInt ld = d.in(1, "load"); UInt lv = d.in(w, "loadValue");
+	switch (scope) {
+	case 0: if (bi) { IF(inc[0]) c.inc(); } if (bd) { IF(dec[0]) c.dec(); } break;
+	case 1: if (bi) c.inc(); if (bd) c.dec(); break;
+	case 2: IF(en[0]) { if (bi) { IF(inc[0]) c.inc(); } if (bd) { IF(dec[0]) c.dec(); } } break;
+	case 3: IF(en[0]) { if (bi) { IF(inc[0]) c.inc(); } } ELSE { if (bd) { IF(dec[0]) c.dec(); } } break;
+	case 4: IF(en[0]) { if (bi) c.inc(); if (bd) c.dec(); } break;
+	default:
+		if (bi) { IF(inc[0]) c.inc(); IF(en[0]) c.inc(); }
+		if (bd) { IF(dec[0]) c.dec(); IF(en[0]) c.dec(); }
+		break;
+	}
+	switch (ldk) {
+	case 1: IF(ld[0]) c.load(lv); break;
+	case 2: IF(ld[0]) c.reset(); break;
+	case 3: IF(en[0]) { IF(ld[0]) c.load(lv); } break;
+	default: break;
+	}
+	d.out(c.value(), "value"); d.outBit(c.isLast(), "last"); d.outBit(c.isFirst(), "first"); d.outBit(c.becomesFirst(), "becomesFirst");
+	if (pe) d.ins.push_back({ *pe, (size_t)E });
+}
+// scl::Adder<UInt>: adder <w> <k> : a_1 .. a_k -> sum     (operator+= chain)
+COMB(adder) {
+	scl::Adder<UInt> a;
+	for (size_t k = 0; k < p[1]; k++) { UInt x = d.in(p[0], ("a" + std::to_string(k)).c_str()); if (k & 1) a += x; else a.add(x); }
+	d.out(a.sum(), "sum");
+}
+// uintToThermometric(in, size_t inMaxValue)
+COMB(thermom) { UInt x = d.in(p[0], "x"); d.out(scl::uintToThermometric(x, (size_t)p[1]), "t"); }
+// CrcState with words of different widths: crcmx <crcW> <w1> <w2> <w3> : poly init xorout revData revCrc d1 d2 d3
+COMB(crcmx) {
+	UInt poly = d.in(p[0], "poly"); UInt init = d.in(p[0], "init"); UInt xo = d.in(p[0], "xorout");
+	UInt rd = d.in(1, "revData"); UInt rc = d.in(1, "revCrc");
+	scl::CrcState st{ .params = scl::CrcParams{ .polynomial = poly, .initialRemainder = init, .reverseData = rd[0], .reverseCrc = rc[0], .xorOut = xo } };
+	st.init();
+	for (size_t k = 1; k < p.size(); k++) { UInt w = d.in(p[k], ("w" + std::to_string(k)).c_str()); st.update(w); }
+	d.out(st.checksum(), "checksum");
+}
+
 // ---------------------------------------------------------------- runner
 struct Line { std::string raw; std::vector<std::string> ops; };
 
